@@ -1,6 +1,7 @@
 """C05 - a failed training run raises in bounded time and never returns weights."""
 import core
 import faultlib
+import schedlib
 
 RULE = ("X-fault: every learner (dict_ndl, ndl threading/openmp, wh binary-real / real-binary / real-real with openmp and "
         "numpy, dict_wh) x fault kind (duplicate cue or outcome under the default policy, malformed line with 1 or 4 fields "
@@ -10,7 +11,8 @@ RULE = ("X-fault: every learner (dict_ndl, ndl threading/openmp, wh binary-real 
         "events_per_temporary_file, plus fault-free controls and generator input. Each call runs in its own killable "
         "process under a 120 s deadline (normal 0.1-2 s); a missed deadline is confirmed by an isolated 360 s re-run. The "
         "observed class return / raise / timeout must be the model's: raise for every fault, return for the controls and "
-        "for byte budgets that every chunk fits. A case is non-trivial when it injects a fault; distinct by content hash.")
+        "for byte budgets that every chunk fits. A case is non-trivial when it injects a fault; distinct by content hash. "
+        + schedlib.RULE + ".")
 TRUSTED = ["multiprocessing.Pool semantics as encoded in Proto.v; Python exception propagation through sequential code",
            "'bounded time' is a step bound in the model and a wall-clock deadline in the run; OS behaviour under a full "
            "disk beyond EFBIG is not modelled"]
@@ -57,3 +59,11 @@ def run(ctx):
                                  "impl": {k: v for k, v in res.items() if k != "value"}})
             break
     rep.coverage["traces_validated_against_impl"] += len(cases)
+    # ---- failing kernel calls in worker threads, under schedules chosen here, step-aligned with QueueFaults ------
+    if not rep.violations:
+        _, senc, smo = schedlib.run(ctx, 1500 if ctx.thorough else 200, "always")
+        rep.lap("controlled_schedules")
+        n, badi = core.coq_crosscheck(senc[:40], smo[:40])
+        rep.note("vm_compute_crosschecked_cases", n)
+        if badi:
+            rep.violation("extracted model and vm_compute disagree", {"cases": badi}, no_input=True)
